@@ -209,6 +209,16 @@ func genC39(t *rapid.T) C39Case {
 		s += "\xff"
 	case 4:
 		s += rapid.SampledFrom([]string{"#", "&", "@", "_", "\x00", "\x7f"}).Draw(t, "p")
+	case 5: // alias rune (low byte is a valid character) or a digit of another script, anywhere
+		r := aliasRune(basic43[rapid.IntRange(0, 42).Draw(t, "ac")], rapid.IntRange(0, 199).Draw(t, "ak"))
+		if rapid.Bool().Draw(t, "nd") {
+			r = rapid.SampledFrom(nonASCIIDigits).Draw(t, "ndr")
+		}
+		p := 0
+		if len(s) > 0 {
+			p = rapid.IntRange(0, len(s)).Draw(t, "ap")
+		}
+		s = s[:p] + string(r) + s[p:]
 	}
 	c.Content = BStr(s)
 	return c
